@@ -100,6 +100,17 @@ let answer line =
         | Some v, _ -> "S " ^ hex_of_z v
         | None, Some b -> "B " ^ bool01 b
         | None, None -> "N"))
+  | "grow" :: o :: args ->
+    let op = opcode_of_int (int_of_string o) in
+    let rec find = function [] -> None | ((o', _), s) :: r -> if opcode_num o' = opcode_num op then Some s else find r in
+    (match find gvn_table with
+     | None -> "NOROW"
+     | Some s ->
+       let env = env_of (List.map z_of_hex args) in
+       (match stmt_value env s, stmt_branch env s with
+        | Some v, _ -> "S " ^ hex_of_z v
+        | None, Some b -> "B " ^ bool01 b
+        | None, None -> "N"))
   | ["irowok"; o] ->
     let op = opcode_of_int (int_of_string o) in
     (match find_row op interp_table with None -> "NOROW" | Some s -> bool01 (row_ok op s))
